@@ -260,7 +260,7 @@ DataViol(c) ==
           THEN {V("C17_ConsecutiveTSN", <<e, c.tsn, c.id, c.fi>>)} ELSE {})
     \cup (IF c.il /\ c.fsn # c.fi THEN {V("C17_FsnOrder", <<e, c.tsn, c.id, c.fi, c.fsn>>)} ELSE {})
     \cup (IF known /\ m.rtype = 1 /\ m.ppi # 50 /\ ntx > m.rval + 1 THEN {V("C06_RexmitCap", <<e, c.tsn, c.id, ntx, m.rval, IF m.len > c.len THEN "fragmented" ELSE "whole">>)} ELSE {})
-    \cup (IF known /\ m.rtype = 2 /\ m.ppi # 50 /\ late > 1 THEN {V("C06_Lifetime", <<e, c.tsn, c.id, late, m.rval>>)} ELSE {})
+    \cup (IF known /\ m.rtype = 2 /\ m.ppi # 50 /\ late > 1 THEN {V("C06_Lifetime", <<e, c.tsn, c.id, late, m.rval, IF m.len > c.len THEN "fragmented" ELSE "whole">>)} ELSE {})
 
 TrChunkData ==
   /\ IsEv("c") /\ E.k \in DataKinds /\ ~pkt[E.pid].forged
